@@ -52,7 +52,7 @@ def r2(run):
         for (bb, cond, t_edges, f_edges) in tests:
             reach = cb.reachable_blocks([t for (_, t, _) in t_edges])
             vals = [strip(e2) for (rb, e2, raw) in cb.return_defs() if rb in reach]
-            run.ob("%s|filter-drops-expired" % C.READ_SYNC, bool(vals) and all(v[0] == "const" and v[1].get("bool") is False for v in vals), cb.sp,
+            run.ob("%s|filter-drops-expired" % C.READ_SYNC, bool(vals) and all(q.bool_under(v, cond, True) is False for v in vals), cb.sp,
                    "on the expired edge the filter returns false (%s)" % [fmt(v) for v in vals], reason="expired-frame-returned")
 
 
